@@ -87,3 +87,22 @@ package cff
 //@   loop 4
 //@     invariant 0 <= i && i <= count && out != nil && fresh(out) && count == len(data) && blen(out) == 3 + (count+1)*offSize + sumBlob(data, i) && 1 <= offSize && offSize <= 4
 //@     decreases count - i
+
+// readIndex: total on arbitrary input (no panic, terminates, allocation
+// bounded by the input size), reader faults are returned.
+//@ func readIndex(p *parser.Parser) (idx cffIndex, err error)   props: C13 C02 C18
+//@   requires parser.inv(p) && fsize(p.r) <= 1099511627776
+//@   ensures faults(p.r) > old(faults(p.r)) ==> err != nil
+//@   loop 0
+//@     invariant parser.inv(p) && p.r == old(p.r) && fsize(p.r) <= 1099511627776 && size == fsize(p.r) && faults(p.r) == old(faults(p.r))
+//@     invariant 0 <= i && i <= count + 1 && len(offsets) == i && (isnil(offsets) || fresh(offsets)) && count >= 1 && 1 <= prevOffset && (i > 0 ==> prevOffset == offsets[i-1] + 1)
+//@     invariant forall k int :: 0 <= k && k < len(offsets) ==> offsets[k] + 1 <= prevOffset && offsets[k] + 1 < size
+//@     invariant forall k int :: 0 <= k && k < len(offsets) - 1 ==> offsets[k] <= offsets[k+1]
+//@     decreases count + 1 - i
+//@   loop 1
+//@     invariant len(blob) <= 255 && 0 <= offs
+//@   loop 2
+//@     invariant 0 <= i && i <= count && len(res) == count && fresh(res) && len(offsets) == count + 1 && len(buf) == offsets[count] && fresh(buf)
+//@     invariant forall k int :: 0 <= k && k < len(offsets) - 1 ==> offsets[k] <= offsets[k+1]
+//@     invariant forall k int :: 0 <= k && k < len(offsets) ==> offsets[k] <= offsets[count]
+//@     decreases count - i
